@@ -1161,200 +1161,6 @@ def det_unbound(fn, where):
 # (ii) word languages: the rewrite of remove_unicode_matches re-stated, get_matches' matching mode, languages
 # =====================================================================================================
 
-def rewrite_model(fn, where):
-    """remove_unicode_matches as an ordered list of (pattern, replacement) applied to <param>.pattern;
-    a replacement is a string or ('fn', FunctionDef) for a nested helper (interpreted by call_helper)"""
-    ps = params_of(fn, True)
-    if len(ps) != 1:
-        raise AnalysisError('%s: expected one parameter' % where)
-    env = {}
-    helpers = {}
-
-    def ev(e):
-        if isinstance(e, ast.Call) and isinstance(e.func, ast.Attribute) and e.func.attr == 'sub' and \
-                isinstance(e.func.value, ast.Name) and e.func.value.id in ('re', 'regex') and len(e.args) == 3 \
-                and not e.keywords and isinstance(e.args[0], ast.Constant) and isinstance(e.args[0].value, str):
-            r = e.args[1]
-            if isinstance(r, ast.Constant) and isinstance(r.value, str):
-                repl = r.value
-            elif isinstance(r, ast.Name) and r.id in helpers:
-                repl = ('fn', helpers[r.id])
-            else:
-                raise AnalysisError('%s:%d replacement of a rewrite step not understood: %s' % (where, e.lineno, ast.unparse(r)[:40]))
-            return ev(e.args[2]) + [(e.args[0].value, repl)]
-        if isinstance(e, ast.Attribute) and e.attr == 'pattern' and isinstance(e.value, ast.Name) and e.value.id == ps[0]:
-            return []
-        if isinstance(e, ast.Name) and e.id in env:
-            return env[e.id]
-        raise AnalysisError('%s:%d rewrite step not understood: %s' % (where, getattr(e, 'lineno', 0), ast.unparse(e)[:60]))
-    result = None
-    for st in body_of(fn):
-        if isinstance(st, ast.FunctionDef):
-            helpers[st.name] = st
-        elif isinstance(st, ast.Assign) and len(st.targets) == 1 and isinstance(st.targets[0], ast.Name):
-            env[st.targets[0].id] = ev(st.value)
-        elif isinstance(st, ast.Return) and st.value is not None:
-            result = ev(st.value)
-        else:
-            raise AnalysisError('%s:%d statement not understood in the rewrite' % (where, st.lineno))
-    if result is None:
-        raise AnalysisError('%s: the rewrite returns nothing' % where)
-    return result
-
-
-_INT_OPS = {ast.Add: lambda a, b: a + b, ast.Sub: lambda a, b: a - b, ast.Mult: lambda a, b: a * b,
-            ast.BitOr: lambda a, b: a | b, ast.BitAnd: lambda a, b: a & b, ast.BitXor: lambda a, b: a ^ b,
-            ast.FloorDiv: lambda a, b: a // b}
-
-
-def call_helper(fn, m):
-    """whitelisting interpreter for a replacement helper `def f(m): ...; return <str>`: straight-line assignments (tuple
-    unpacking allowed), integer arithmetic, m.group(n), int(x, base), chr, %-formatting, f-strings, str.upper/lower/zfill.
-    Anything else is an AnalysisError (nothing from the tree is executed)."""
-    ps = [a.arg for a in fn.args.args]
-    if len(ps) != 1 or fn.args.vararg or fn.args.kwarg or fn.args.kwonlyargs:
-        raise AnalysisError('line %d: replacement helper %s does not take exactly the match' % (fn.lineno, fn.name))
-    env = {ps[0]: m}
-
-    def fail(e, why='construct'):
-        raise AnalysisError('line %d: replacement helper %s: %s not understood: %s'
-                            % (getattr(e, 'lineno', fn.lineno), fn.name, why, ast.unparse(e)[:60]))
-
-    def small(v):
-        if isinstance(v, int) and not isinstance(v, bool) and abs(v) > 1 << 40:
-            raise AnalysisError('line %d: replacement helper %s: integer out of range' % (fn.lineno, fn.name))
-        return v
-
-    def ev(e):
-        if isinstance(e, ast.Constant) and isinstance(e.value, (int, str)) and not isinstance(e.value, bool):
-            return e.value
-        if isinstance(e, ast.Name):
-            if e.id in env:
-                return env[e.id]
-            fail(e, 'name')
-        if isinstance(e, ast.Tuple):
-            return tuple(ev(x) for x in e.elts)
-        if isinstance(e, ast.UnaryOp) and isinstance(e.op, ast.USub):
-            v = ev(e.operand)
-            if isinstance(v, int):
-                return -v
-            fail(e)
-        if isinstance(e, ast.BinOp):
-            a, b = ev(e.left), ev(e.right)
-            if isinstance(e.op, ast.Mod) and isinstance(a, str):
-                args = b if isinstance(b, tuple) else (b,)
-                if all(isinstance(x, (int, str)) for x in args):
-                    try:
-                        return a % args
-                    except (TypeError, ValueError):
-                        fail(e, 'format')
-                fail(e, 'format')
-            if isinstance(e.op, ast.Add) and isinstance(a, str) and isinstance(b, str):
-                return a + b
-            if isinstance(a, int) and isinstance(b, int) and not isinstance(a, bool) and not isinstance(b, bool):
-                if isinstance(e.op, (ast.LShift, ast.RShift)):
-                    if not 0 <= b <= 32:
-                        fail(e, 'shift')
-                    return small(a << b if isinstance(e.op, ast.LShift) else a >> b)
-                if type(e.op) in _INT_OPS:
-                    if isinstance(e.op, ast.FloorDiv) and b == 0:
-                        fail(e, 'division')
-                    return small(_INT_OPS[type(e.op)](a, b))
-            fail(e, 'operator')
-        if isinstance(e, ast.JoinedStr):
-            parts = []
-            for pz in e.values:
-                if isinstance(pz, ast.Constant):
-                    parts.append(str(pz.value))
-                elif isinstance(pz, ast.FormattedValue) and pz.conversion == -1:
-                    v = ev(pz.value)
-                    spec = ''
-                    if pz.format_spec is not None:
-                        if not all(isinstance(x, ast.Constant) for x in pz.format_spec.values):
-                            fail(pz, 'format spec')
-                        spec = ''.join(str(x.value) for x in pz.format_spec.values)
-                    if not isinstance(v, (int, str)):
-                        fail(pz, 'formatted value')
-                    try:
-                        parts.append(format(v, spec))
-                    except (TypeError, ValueError):
-                        fail(pz, 'format spec')
-                else:
-                    fail(pz)
-            return ''.join(parts)
-        if isinstance(e, ast.Call) and not e.keywords:
-            f = e.func
-            args = [ev(a) for a in e.args]
-            if isinstance(f, ast.Name):
-                if f.id == 'int' and len(args) in (1, 2) and isinstance(args[0], (str, int)) and all(isinstance(a, int) for a in args[1:]):
-                    try:
-                        return small(int(*args))
-                    except (TypeError, ValueError):
-                        fail(e, 'int()')
-                if f.id == 'chr' and len(args) == 1 and isinstance(args[0], int) and 0 <= args[0] <= 0x10FFFF:
-                    return chr(args[0])
-                if f.id == 'str' and len(args) == 1 and isinstance(args[0], (int, str)):
-                    return str(args[0])
-                if f.id == 'format' and len(args) == 2 and isinstance(args[0], (int, str)) and isinstance(args[1], str):
-                    try:
-                        return format(args[0], args[1])
-                    except (TypeError, ValueError):
-                        fail(e, 'format()')
-                fail(e, 'call')
-            if isinstance(f, ast.Attribute):
-                recv = ev(f.value)
-                if recv is m and f.attr == 'group' and len(args) <= 1 and all(isinstance(a, (int, str)) for a in args):
-                    try:
-                        g = m.group(*args)
-                    except (IndexError, error_types()):
-                        fail(e, 'group')
-                    return g if g is not None else ''
-                if isinstance(recv, str) and f.attr in ('upper', 'lower') and not args:
-                    return getattr(recv, f.attr)()
-                if isinstance(recv, str) and f.attr == 'zfill' and len(args) == 1 and isinstance(args[0], int) and 0 <= args[0] <= 16:
-                    return recv.zfill(args[0])
-            fail(e, 'call')
-        fail(e)
-
-    for st in body_of(fn):
-        if isinstance(st, ast.Assign) and len(st.targets) == 1:
-            t = st.targets[0]
-            v = ev(st.value)
-            if isinstance(t, ast.Name):
-                env[t.id] = v
-            elif isinstance(t, ast.Tuple) and all(isinstance(x, ast.Name) for x in t.elts) and isinstance(v, tuple) \
-                    and len(v) == len(t.elts):
-                for x, y in zip(t.elts, v):
-                    env[x.id] = y
-            else:
-                fail(st, 'assignment')
-        elif isinstance(st, ast.Return) and st.value is not None:
-            v = ev(st.value)
-            if not isinstance(v, str):
-                fail(st, 'return value')
-            return v
-        else:
-            fail(st, 'statement')
-    raise AnalysisError('line %d: replacement helper %s returns nothing' % (fn.lineno, fn.name))
-
-
-def error_types():
-    return re.error
-
-
-def apply_rewrite(steps, pattern):
-    for p, r in steps:
-        try:
-            if isinstance(r, tuple):
-                helper = r[1]
-                pattern = re.sub(p, lambda m, helper=helper: call_helper(helper, m), pattern)
-            else:
-                pattern = re.sub(p, r, pattern)
-        except re.error as e:
-            raise AnalysisError('rewrite step %r does not compile: %s' % (p, e))
-    return pattern
-
-
 def matching_mode(fn, where, rewrite_name='remove_unicode_matches'):
     """RegExpUtility.get_matches -> {'rewritten': bool, 'ci': bool}: is the pattern rewritten, is matching case-insensitive"""
     ps = params_of(fn, True)
@@ -1410,6 +1216,26 @@ def decode_listed(pattern):
     return _LONG.sub(long_, _PAIR.sub(pair, pattern))
 
 
+def normalise_escapes(text):
+    """\\UXXXXXXXX and \\uXXXX escapes as the characters they denote (lone surrogates are kept as escapes)"""
+    def rep(m):
+        v = int(m.group(1) or m.group(2), 16)
+        if v > 0x10FFFF or 0xD800 <= v <= 0xDFFF:
+            return m.group(0)
+        return chr(v)
+    return re.sub(r'\\U([0-9a-fA-F]{8})|\\u([0-9a-fA-F]{4})', rep, text)
+
+
+def escape_differences(expected, got):
+    """both normalised: -> list of 'U+XXXX comes out as U+YYYY' / structural difference"""
+    ea = [ch for ch in expected if ord(ch) > 0x7F]
+    ga = [ch for ch in got if ord(ch) > 0x7F]
+    skeleton = (re.sub(r'[^\x00-\x7f]', '#', expected), re.sub(r'[^\x00-\x7f]', '#', got))
+    if skeleton[0] != skeleton[1] or len(ea) != len(ga):
+        return ['the text around the escapes changes: expected %s, rewritten %s' % (ascii(expected)[:120], ascii(got)[:120])]
+    return sorted({'U+%04X comes out as U+%04X' % (ord(a), ord(b)) for a, b in zip(ea, ga) if a != b})
+
+
 def escapes_wellformed(pattern):
     """every \\U is followed by 8 hex digits denoting a code point, every \\u by 4 -> None or a complaint"""
     i = 0
@@ -1452,13 +1278,13 @@ def cased_up(w):
     return any(len(ch.lower()) == 1 and ch.lower() != ch for ch in w)
 
 
-def analyse_polarity(pattern, steps, mode):
+def analyse_polarity(pattern, rewrite, mode):
     """-> dict with listed / matched languages partitioned"""
     listed_src = decode_listed(pattern)
     _t, listed, _f = language(listed_src, 'listed pattern')
     listed.discard('')
     if mode['rewritten']:
-        py_src = apply_rewrite(steps, pattern)
+        py_src = rewrite(pattern)
     else:
         py_src = pattern
     res = {'listed_src': listed_src, 'py_src': py_src, 'compile': escapes_wellformed(py_src)}
@@ -1697,9 +1523,11 @@ class ChoiceInterp(Interp):
                 return native(lambda it, a, k: a[0] if len(a) == 1 else a[0][a[1]:(a[2] if len(a) > 2 else None)])
             if imp[1].split('.')[0] == 'emoji':
                 return self._emoji_native(imp[2], node)
+        if name in ('format', 'hex') and (mod is None or self.idx.resolve(mod, name) is None):
+            return ('builtin', name)
         return Interp.resolve_name(self, name, mod, node)
 
-    def getattr(self, o, name, node, cls):
+    def _getattr_private(self, o, name, node, cls):
         if isinstance(o, IObj) and name.startswith('__') and not name.endswith('__') and o.cls is not None \
                 and hasattr(o.cls, 'methods'):
             for k in self.idx.mro(o.cls):
@@ -1707,7 +1535,84 @@ class ChoiceInterp(Interp):
                     return Bound(o, FuncRef(k.mod, k.methods[name], k))
         return Interp.getattr(self, o, name, node, cls)
 
+    _CODECS = {'utf-16', 'utf_16', 'utf-16-le', 'utf-16-be', 'utf-16le', 'utf-16be', 'utf-8', 'utf8', 'utf-32', 'utf-32-le', 'utf-32-be'}
+
+    def binop(self, op, a, b, node):
+        ints = isinstance(a, int) and isinstance(b, int) and not isinstance(a, bool) and not isinstance(b, bool)
+        if isinstance(op, (ast.LShift, ast.RShift)) and ints:
+            if not 0 <= b <= 64 or abs(a) > 1 << 64:
+                raise PyExc('shift out of range in ' + ast.unparse(node)[:60])
+            return a << b if isinstance(op, ast.LShift) else a >> b
+        if isinstance(op, ast.BitXor) and ints:
+            return a ^ b
+        if isinstance(op, ast.Mod) and isinstance(a, str):
+            args = tuple(b) if isinstance(b, (tuple, list)) else (b,)
+            if all(isinstance(x, (int, float, str)) for x in args):
+                try:
+                    return a % args
+                except (TypeError, ValueError):
+                    raise PyExc('error in string formatting ' + ast.unparse(node)[:60])
+            self.fail(node, 'string formatting of %r' % (b,))
+        return Interp.binop(self, op, a, b, node)
+
+    def builtin(self, name, args, kwargs, node):
+        try:
+            if name == 'int' and len(args) == 2 and isinstance(args[0], str) and isinstance(args[1], int) and not kwargs:
+                return int(args[0], args[1])
+            if name == 'format' and len(args) == 2 and isinstance(args[0], (int, float, str)) and isinstance(args[1], str):
+                return format(args[0], args[1])
+            if name == 'hex' and len(args) == 1 and isinstance(args[0], int):
+                return hex(args[0])
+            if name == 'chr' and len(args) == 1 and isinstance(args[0], int):
+                if not 0 <= args[0] <= 0x10FFFF:
+                    raise PyExc('ValueError: chr() arg not in range')
+                return chr(args[0])
+        except (TypeError, ValueError):
+            raise PyExc('error in builtin ' + name)
+        return Interp.builtin(self, name, args, kwargs, node)
+
+    def ev(self, e, env, mod, cls):
+        if isinstance(e, ast.JoinedStr) and any(isinstance(p, ast.FormattedValue) and p.format_spec is not None for p in e.values):
+            out = ''
+            for p in e.values:
+                if isinstance(p, ast.Constant):
+                    out += str(p.value)
+                elif isinstance(p, ast.FormattedValue) and p.conversion == -1:
+                    v = self.ev(p.value, env, mod, cls)
+                    spec = ''
+                    if p.format_spec is not None:
+                        if not all(isinstance(x, ast.Constant) for x in p.format_spec.values):
+                            self.fail(e, 'computed format spec')
+                        spec = ''.join(str(x.value) for x in p.format_spec.values)
+                    if not isinstance(v, (int, float, str)):
+                        self.fail(e, 'formatted value %r' % (v,))
+                    try:
+                        out += format(v, spec)
+                    except (TypeError, ValueError):
+                        raise PyExc('error in format spec')
+                else:
+                    self.fail(e, 'f-string conversion')
+            return out
+        return Interp.ev(self, e, env, mod, cls)
+
+    def getattr(self, o, name, node, cls):      # noqa: F811 (extended below for bytes)
+        if isinstance(o, bytes):
+            return ('method', o, name)
+        return self._getattr_private(o, name, node, cls)
+
     def method(self, recv, name, args, kwargs, node):
+        if isinstance(recv, str) and name == 'encode' and 1 <= len(args) <= 2 and all(isinstance(a, str) for a in args) \
+                and args[0].lower() in self._CODECS and (len(args) == 1 or args[1] in ('strict', 'surrogatepass')):
+            try:
+                return recv.encode(*args)
+            except (UnicodeError, LookupError):
+                raise PyExc('UnicodeEncodeError')
+        if isinstance(recv, bytes) and name == 'decode' and 1 <= len(args) <= 2 and all(isinstance(a, str) for a in args) \
+                and args[0].lower() in self._CODECS and (len(args) == 1 or args[1] in ('strict', 'surrogatepass')):
+            try:
+                return recv.decode(*args)
+            except (UnicodeError, LookupError):
+                raise PyExc('UnicodeDecodeError')
         if isinstance(recv, list) and name == 'index' and len(args) in (2, 3) and all(isinstance(a, int) for a in args[1:]):
             hi = args[2] if len(args) == 3 else len(recv)
             for i, x in enumerate(recv):
@@ -1715,6 +1620,76 @@ class ChoiceInterp(Interp):
                     return i
             raise PyExc('ValueError')
         return Interp.method(self, recv, name, args, kwargs, node)
+
+
+class RewriteRunner:
+    """remove_unicode_matches run as written (sa/ointerp.py) on a pattern's source text.  re / regex `sub` and `compile` are
+    hooks implemented with Python's own `re` over the pattern *data* found in the tree; a callable replacement is called back
+    through the interpreter with a stand-in match object.  Anything outside the interpreted subset is an AnalysisError."""
+
+    def __init__(self, idx, scls, fn):
+        self.idx, self.scls, self.fn = idx, scls, fn
+        self.where = '%s:%s.%s' % (scls.mod.rel, scls.name, fn.name)
+
+    @staticmethod
+    def _match(m):
+        def group(it, a, k):
+            try:
+                g = m.group(*a)
+            except (IndexError, re.error):
+                raise PyExc('IndexError: no such group')
+            return list(g) if isinstance(g, tuple) else g
+        return Native({'group': native(group), 'groups': native(lambda it, a, k: list(m.groups())),
+                       'start': native(lambda it, a, k: m.start(*a)), 'end': native(lambda it, a, k: m.end(*a)),
+                       'span': native(lambda it, a, k: list(m.span(*a))), 'string': m.string}, 'match')
+
+    def _sub(self, it, pat, repl, text, rest, kwargs):
+        if rest or kwargs:
+            raise AnalysisError('%s: sub with count / flags is outside the interpreted subset' % self.where)
+        if isinstance(pat, Native) and 'pattern' in pat.table:
+            pat = pat.table['pattern']
+        if not isinstance(pat, str) or not isinstance(text, str):
+            raise AnalysisError('%s: sub called with %r, %r' % (self.where, type(pat).__name__, type(text).__name__))
+        try:
+            cre = re.compile(pat)
+        except re.error as e:
+            raise AnalysisError('%s: escape pattern %r does not compile (%s)' % (self.where, pat, e))
+        if isinstance(repl, str):
+            try:
+                return cre.sub(repl, text)
+            except (re.error, IndexError) as e:
+                raise AnalysisError('%s: replacement template %r invalid (%s)' % (self.where, repl, e))
+
+        def call(m):
+            r = it.call_value(repl, [self._match(m)], {}, self.fn)
+            if not isinstance(r, str):
+                raise PyExc('TypeError: replacement function returned %r' % (r,))
+            return r
+        return cre.sub(call, text)
+
+    def __call__(self, pattern_text):
+        def sub_hook(it, a, k):
+            if len(a) < 3:
+                raise AnalysisError('%s: sub call shape not understood' % self.where)
+            return self._sub(it, a[0], a[1], a[2], a[3:], k)
+
+        def compile_hook(it, a, k):
+            if len(a) != 1 or k or not isinstance(a[0], str):
+                raise AnalysisError('%s: compile with flags is outside the interpreted subset' % self.where)
+            src = a[0]
+            obj = Native({'pattern': src}, 'compiled-pattern')
+            obj.table['sub'] = native(lambda it_, b, kw: self._sub(it_, src, b[0], b[1], b[2:], kw) if len(b) >= 2 else
+                                      it_.fail(self.fn, 'sub call shape'))
+            return obj
+        it = ChoiceInterp(self.idx, hooks={'regex.sub': sub_hook, 'regex.compile': compile_hook}, where=self.where, budget=200000)
+        arg = Native({'pattern': pattern_text}, 'pattern')
+        try:
+            out = it.call_function(FuncRef(self.scls.mod, self.fn, self.scls), [arg], {}, None, selfobj=None)
+        except PyExc as ex:
+            raise AnalysisError('%s raises %s on the pattern text' % (self.where, ex))
+        if not isinstance(out, str):
+            raise AnalysisError('%s returned %r' % (self.where, type(out).__name__))
+        return out
 
 
 def is_emoji_function(idx, xk):
@@ -2534,15 +2509,15 @@ def analyse_words(idx, E, r, vals, wired, matching, lowered):
         mode = matching_mode(rcls.methods['get_matches'], '%s:RegExpUtility.get_matches' % rcls.mod.rel)
     else:
         mode = {'rewritten': matching['rewritten'], 'ci': matching['ci'], 'line': matching['call'].lineno}
-    steps = []
+    rewrite = None
     if mode['rewritten']:
         scls = None
         for c in idx.classes_by_name.get('StringUtility', []):
-            if 'remove_unicode_matches' in c.methods:
+            if REWRITE_NAME in c.methods:
                 scls = c
         if scls is None:
-            raise AnalysisError('anchor vanished: StringUtility.remove_unicode_matches')
-        steps = rewrite_model(scls.methods['remove_unicode_matches'], '%s:StringUtility.remove_unicode_matches' % scls.mod.rel)
+            raise AnalysisError('anchor vanished: StringUtility.%s' % REWRITE_NAME)
+        rewrite = RewriteRunner(idx, scls, scls.methods[REWRITE_NAME])
         E.consulted(scls.mod.path)
     tok = vals['token_regex']
     try:
@@ -2566,7 +2541,7 @@ def analyse_words(idx, E, r, vals, wired, matching, lowered):
         c, a = wired[slot]
         construct = '%s.%s' % (c.name, a)
         rline = attr_line(c, a)
-        A = analyse_polarity(vals[slot], steps, mode)
+        A = analyse_polarity(vals[slot], rewrite, mode)
         pol[tag] = A
         if A['compile']:
             E.bad('C20.rewrite', c.mod.path, construct, 'rewritten pattern malformed: ' + A['compile'],
@@ -2579,6 +2554,12 @@ def analyse_words(idx, E, r, vals, wired, matching, lowered):
                     E.exempt('C20.emoji', c.mod.path, '%s U+%04X' % (construct, ord(w)), why, 'matched language not available', rline)
             E.exempt('C20.residue', c.mod.path, construct, why, 'matched language not available', rline)
             continue
+        if mode['rewritten']:
+            diffs = escape_differences(normalise_escapes(A['listed_src']), normalise_escapes(A['py_src']))
+            E.judge(not diffs, 'C20.rewrite', c.mod.path, '%s escapes' % construct,
+                    'every astral escape comes out as the code point it denotes, nothing else changes' if not diffs else '; '.join(diffs),
+                    '%s, run as written on the pattern text, does not translate the escapes faithfully: %s'
+                    % (REWRITE_NAME, '; '.join(diffs)), rline)
         E.judge(not A.get('matches_empty'), 'C20.rewrite', c.mod.path, construct,
                 'rewritten pattern: %d expressions, empty match %s' % (len(A['py']), 'possible' if A.get('matches_empty') else 'impossible'),
                 'the pattern can match the empty string', rline)
@@ -2787,8 +2768,12 @@ class StringUtility:
 
     @staticmethod
     def remove_unicode_matches(string):
-        py_regex = re.sub('\\\\u.{4}[\\|\\\\]', '', string.pattern)
-        return re.sub('\\\\u', '\\\\U', py_regex)
+        def join_surrogates(m):
+            high, low = int(m.group(1), 16), int(m.group(2), 16)
+            return '\\U%08X' % (0x10000 + ((high - 0xD800) << 10) + (low - 0xDC00))
+
+        py_regex = re.sub(r'\\u([dD][89abAB][0-9a-fA-F]{2})\\u([dD][c-fC-F][0-9a-fA-F]{2})', join_surrogates, string.pattern)
+        return re.sub(r'\\u(000[0-9a-fA-F]{5})', r'\\U\1', py_regex)
 
     @staticmethod
     def index_of(string, token, position):
@@ -3033,10 +3018,10 @@ CONTROL_EDITS = {
     'C20.polarity': [("Constants.SYS_BOOLEAN_TRUE: True", "Constants.SYS_BOOLEAN_TRUE: False")],
     'C20.typing': [("value.type = type_extracted", "value.type = Constants.SYS_BOOLEAN_TRUE")],
     'C20.single': [("results.append(partial_results[top])", "results.extend(partial_results)")],
-    'C20.rewrite': [(r"(\\uD83D\\uDC4C|\\u0001f44c)", r"(\\u0001f44c|\\u270B)")],
+    'C20.rewrite': [(r"r'\\U\1', py_regex)", r"r'\\U', py_regex)")],
     'C20.word': [("(yes|ok)", "(yes|ok |Yep)")],
-    'C20.emoji': [(r"(\\uD83D\\uDC4E|\\u0001F44E|\\u0001F590)", r"(\\uD83D\\uDC4E|\\u270B|\\u0001F44E|\\u0001F590)")],
-    'C20.residue': [("regex.finditer(py_regex, source)", "regex.finditer(py_regex, source, regex.I)")],
+    'C20.emoji': [(r"(\\uD83D\\uDC4C|\\u0001f44c)", r"(\\uD83D\\uDC4D|\\u0001f44c)"), ("(low - 0xDC00))", "(low - 0xDC01))")],
+    'C20.residue': [("(low - 0xDC00))", "(low - 0xDC01))")],
     'C20.disjoint': [(r"(no|not\\s+ok)", r"(no|yes|not\\s+ok)")],
     'C20.separators': [(r"f'[^\\w\\d]'", r"f'[^\\w\\d,]'")],
     'C20.score': [("def __init__(self, source='', score=0.0, other_matches=[]):", "def __init__(self, source='', score=2.0, other_matches=[]):")],
@@ -3058,15 +3043,6 @@ CONTROL_EDITS = {
 
 # the same package in the shape of the repaired tree: surrogate pairs joined by a nested helper, matching in the extract loop
 CONTROL_RESHAPE = [
-    (r"""        py_regex = re.sub('\\\\u.{4}[\\|\\\\]', '', string.pattern)
-        return re.sub('\\\\u', '\\\\U', py_regex)
-""", r"""        def join_surrogates(m):
-            high, low = int(m.group(1), 16), int(m.group(2), 16)
-            return '\\U%08X' % (0x10000 + ((high - 0xD800) << 10) + (low - 0xDC00))
-
-        py_regex = re.sub(r'\\u([dD][89abAB][0-9a-fA-F]{2})\\u([dD][c-fC-F][0-9a-fA-F]{2})', join_surrogates, string.pattern)
-        return re.sub(r'\\u(000[0-9a-fA-F]{5})', r'\\U\1', py_regex)
-"""),
     ("            for match in RegExpUtility.get_matches(regexp, lowered):\n",
      "            for match in regex.finditer(StringUtility.remove_unicode_matches(regexp), lowered):\n"),
     (r"TrueRegex = f'\\b(yes|ok)\\b|(\\uD83D\\uDC4C|\\u0001f44c)'", r"TrueRegex = f'\\b(yes|ok)\\b|(\\uD83D\\uDC4D|\\u270B|\\u0001f44c)'"),
@@ -3075,9 +3051,6 @@ CONTROL_EDITS_2 = {
     'C20.typing': [("regex.finditer(StringUtility.remove_unicode_matches(regexp), lowered)",
                     "regex.finditer(StringUtility.remove_unicode_matches(self.config.token_regex), lowered)")],
     'C20.span': [("value.start = match.start()", "value.start = lowered.find(match.group())")],
-    'C20.rewrite': [(r"r'\\U\1', py_regex)", r"r'\\U', py_regex)")],
-    'C20.emoji': [("(low - 0xDC00))", "(low - 0xDC01))")],
-    'C20.residue': [("(low - 0xDC00))", "(low - 0xDC01))")],
     'C20.word': [("regex.finditer(StringUtility.remove_unicode_matches(regexp), lowered)",
                   "regex.finditer(StringUtility.remove_unicode_matches(regexp), source)")],
 }
